@@ -104,8 +104,9 @@ class SymEval:
             if path in self.store:
                 return self.store[path]
             ep = 0
-            if self.havoc_epoch and self._mutable_leaf(path):
-                ep = self.havoc_epoch.get(path_root(path), 0)
+            if self.havoc_epoch:
+                comps = re.split(r"[.\[\]()]", path)
+                ep = max([self.havoc_epoch.get(c, 0) for c in comps] + [0])
             return self.sym(path + ("@%d" % ep if ep else ""))
         return Lazy(path, ct)
 
@@ -134,9 +135,11 @@ class SymEval:
         return any(c in self._mut_fields for c in comps)
 
     def havoc(self, stmt):
-        """A statement the engine does not execute (loop, branch): every local it assigns and every
-        stored path becomes a fresh unknown."""
+        """A statement the engine does not execute (loop, branch, opaque call): every local it assigns and
+        every stored field it may write becomes a fresh unknown.  Fields it cannot write keep their value."""
         self._var_decl(0)
+        names = set()
+        everything = False
         for n in walk(stmt):
             k = n.get("k")
             t = None
@@ -146,8 +149,21 @@ class SymEval:
                 t = n["c"][0]
             elif k == "CXXOperatorCallExpr" and n.get("op") in ("=", "+=", "-=", "*=", "/=") and len(n.get("c", [])) >= 2:
                 t = n["c"][1]
+            elif k == "CXXMemberCallExpr" and not n.get("cconst"):
+                t = call_obj(n)
+                if self.p.call_targets(n):
+                    tf = [self.p.functions[x] for x in self.p.call_targets(n)]
+                    if not all(self.openable(f) for f in tf):
+                        everything = True
+            elif k == "CallExpr" and self.p.call_targets(n):
+                everything = True
             if t is not None:
                 b = strip(t)
+                for x in walk(b):
+                    if x.get("k") == "MemberExpr" and x["ref"].get("dk") == "Field":
+                        names.add(x["ref"]["name"])
+                while b.get("k") == "MemberExpr" and b.get("c"):
+                    b = strip(b["c"][0])
                 if b.get("k") == "DeclRefExpr":
                     did = b["ref"]["did"]
                     self.havoc_n += 1
@@ -155,10 +171,17 @@ class SymEval:
                     self.memo[did] = v
                     self.overrides[did] = v
         self.havoc_n += 1
+        if self.havoc_epoch is None or isinstance(self.havoc_epoch, _AllEpoch):
+            self.havoc_epoch = {}
+        if everything:
+            self._mutable_leaf("x")
+            names |= set(self._mut_fields or ())
         for path in list(self.store):
-            del self.store[path]
-        self.global_epoch = self.havoc_n
-        self.havoc_epoch = _AllEpoch(self.havoc_n)
+            comps = re.split(r"[.\[\]()]", path)
+            if any(c in names for c in comps):
+                del self.store[path]
+        for nm in names:
+            self.havoc_epoch[nm] = self.havoc_n
 
     def open_method(self, qn, this_val, argvals=()):
         fns = self.p.fns(qn)
